@@ -1,7 +1,7 @@
 (* Proofs/XcodecsEnc.v (codec) - C01 at framing level for dubbo and dubbo-thrift: the fast path returns the received
    frame with only the id bytes replaced, and holds no reference into the read buffer. *)
 From Coq Require Import List NArith Lia ZifyBool ZifyNat ZifyN Bool.
-From MV Require Import Lib.Bytes Lib.Dec Lib.Seg Gen.ProtoConsts Gen.CodecSrc Model.Xcodecs Proofs.Xcodecs.
+From MV Require Import Lib.Bytes Lib.Dec Lib.Seg Model.CodecParams Model.Xcodecs Proofs.Xcodecs.
 Import ListNotations.
 Open Scope N_scope.
 
